@@ -18,8 +18,26 @@ ORDERS = None
 
 
 def blob(seed, name: str, size: int) -> bytes:
-    """Unique content per (run, name): attributable wherever it turns up."""
-    return Stream(seed, "blob", name).bytes(size)
+    """Unique content per (run, name): attributable wherever it turns up.  A share of the blobs carries byte
+    patterns that lossy handling trips over (CR LF, trailing newline / NUL / 0xFF / spaces, leading whitespace)."""
+    s = Stream(seed, "blob", name)
+    b = bytearray(s.bytes(size))
+    if size >= 12:
+        r = s.below(8)
+        if r == 0:
+            b[3:5] = b"\r\n"
+        elif r == 1:
+            b[-1:] = b"\n"
+        elif r == 2:
+            b[-2:] = b"\x00\x00"
+        elif r == 3:
+            b[-1:] = b"\xff"
+        elif r == 4:
+            b[0:1] = b" "
+            b[-1:] = b" "
+        elif r == 5:
+            b[-2:] = b"\r\n"
+    return bytes(b)
 
 
 def make_private_key(seed, name: str, kind: str):
